@@ -379,6 +379,19 @@ def _patch_sheet(xml, results):
                 f'<v>{xml_escape(text)}</v></c>')
     xml = _CELL_RE.sub(repl, xml)
 
+    # the other members of an array formula were written by openpyxl, which
+    # keeps 15-16 significant digits of a float: give them all 17, as the
+    # patched cells have
+    def member_number(m):
+        v = results.get(m.group('r'))
+        if isinstance(v, float) and not isinstance(v, bool) and \
+                repr(v) != m.group('v'):
+            return (f'<c r="{m.group("r")}"{m.group("attrs")}>'
+                    f'<v>{repr(v)}</v></c>')
+        return m.group(0)
+    xml = re.sub(r'<c r="(?P<r>[A-Z]+[0-9]+)"(?P<attrs>[^>]*)>'
+                 r'<v>(?P<v>[-0-9.eE+]+)</v></c>', member_number, xml)
+
     # members of an array formula whose stored result is an empty text:
     # openpyxl writes <c t="inlineStr"/>, Excel writes a formula string
     def empty_member(m):
